@@ -972,6 +972,21 @@ class C19(Prop):
             d = rnd.choice([0, 1, 3])
             lines += ['check save a', 'q a integrate sheight %d' % d, 'check unchanged a', 'check c19 a sheight %d' % d, 'q a euler']
             scripts.append(lines)
+        # large values on few points (and the same handed over as numpy.uint8 scalars, variant `exotic - - np`): sums
+        # and level counts beyond 255
+        for i in range(6 if tier == 'quick' else 120):
+            k_ = rnd.randint(3, 6)
+            lines = ['new a'] + ['add a [ ] i%d -' % (j + 1) for j in range(k_)]
+            for _ in range(rnd.randint(0, 2)):
+                a_, b_ = rnd.sample(range(k_), 2)
+                lines.append('addb a [ i%d i%d ] - -' % (a_ + 1, b_ + 1))
+            for j in range(k_):
+                if rnd.random() < 0.9:
+                    lines.append('setattr a i%d sheight i%d' % (j + 1, rnd.randint(20, 200)))
+            d = rnd.choice([0, 7, 100])
+            lines += ['check save a', 'q a integrate sheight %d' % d, 'check unchanged a', 'check c19 a sheight %d' % d]
+            scripts.append(lines)
+            scripts.append(['exotic - - np'] + lines)
         return scripts, {'exhaustive': tier != 'quick', 'integrations': cnt,
                          'generator': 'complexes on <= %d points x height assignments 0..3 / missing (defaults 0 and 2); random complexes on 5-7 points with defaults 0, 1, 3' % N}
 
@@ -1018,6 +1033,22 @@ class C20(Prop):
             p = [float(rnd.randint(-4, 4) + rnd.choice([0, 0.25, 0.1])) for _ in range(2 * dim)]
             lines.append('check c20-dist %d %s' % (dim, ' '.join(x.hex() for x in p)))
             scripts.append(lines)
+        # pixel / grid coordinates: integers in the tens of thousands (as floats, and -- variant `exotic - - np` -- as
+        # numpy.int32 scalars the way they come out of an array): differences fit 32 bits, their squares do not
+        for i in range(8 if tier == 'quick' else 150):
+            dim = rnd.randint(1, 3); k_ = rnd.randint(2, 4)
+            pts_ = [[float(rnd.randint(-60000, 60000)) for _ in range(dim)] for _ in range(k_)]
+            lines = ['new a'] + ['add a [ ] i%d -' % (j + 1) for j in range(k_)]
+            lines += [('embp e a %d' if i % 2 else 'emb e a %d') % dim, 'check c20-begin e']
+            for j, p_ in enumerate(pts_):
+                lines += ['pos e i%d [ %s ]' % (j + 1, ' '.join(x.hex() for x in p_)), 'check c20 e', 'getpos e i%d' % (j + 1), 'check c20 e']
+            for a_, b_ in itertools.combinations(range(k_), 2):
+                lines.append('check c20-dist %d %s' % (dim, ' '.join(x.hex() for x in pts_[a_] + pts_[b_])))
+            ds_ = sorted(math.dist(a_, b_) for a_, b_ in itertools.combinations(pts_, 2))
+            for k2_, eps_ in enumerate([ds_[0], ds_[len(ds_) // 2], ds_[-1] + 1.0]):
+                lines += ['vr w%d e %s ?' % (k2_, eps_.hex()), 'snap w%d' % k2_, 'check c12 w%d e %s' % (k2_, eps_.hex())]
+            scripts.append(lines)
+            scripts.append(['exotic - - np'] + lines)
         R = 4 if tier == 'quick' else 6
         for r in range(1, R + 1):
             for c in range(1, R + 1):
